@@ -7,6 +7,7 @@ import Mathlib.Tactic.Linarith
 import Mathlib.Tactic.FieldSimp
 import Mathlib.Tactic.Positivity
 import Mathlib.Order.Defs.LinearOrder
+import Mathlib.Algebra.Order.Archimedean.Real.Basic
 /-!
 Helper lemmas for C07 (model `BppModel/VecTools.lean` read at `ℝ`).
 -/
@@ -1045,5 +1046,231 @@ theorem computeFdr_rank (p : List ℝ) (hnd : p.Nodup) :
   | some o =>
     simp only [ho, eqb_iff] at this
     rw [this, hcount]; simp
+
+/-! ### seq -/
+
+theorem seqFill_length (step : ℝ) (n : Nat) (val : ℝ) : (seqFill step n val).length = n := by
+  induction n generalizing val with
+  | zero => rfl
+  | succ k ih => simp [seqFill, ih]
+
+theorem seqFill_get (step : ℝ) (n : Nat) (val : ℝ) (i : Nat) (h : i < n) :
+    (seqFill step n val)[i]? = some (val + i * step) := by
+  induction n generalizing val i with
+  | zero => omega
+  | succ k ih =>
+    cases i with
+    | zero => simp [seqFill]
+    | succ j =>
+      simp only [seqFill, List.getElem?_cons_succ]
+      rw [ih (val + step) j (by omega)]; congr 1; push_cast; ring
+
+/-- the `(size_t)` conversion of a non-negative real -/
+noncomputable def truncR (x : ℝ) : Nat := ⌊x⌋₊
+
+theorem seq_spec' (frm tt by_ : ℝ) (hby : 0 < by_) :
+    ∃ l, seq truncR frm tt by_ = .ok l ∧
+      l.length = ⌊(|frm - tt| + by_ / 100) / by_⌋₊ + 1 ∧
+      ∀ i, i < l.length → l[i]? = some (frm + i * (if frm < tt then by_ else -by_)) := by
+  unfold seq seqWith
+  have : Scalar.gtb by_ Scalar.zero = true := by simp [hby]
+  simp only [this, Bool.not_true, Bool.false_eq_true, if_false]
+  refine ⟨_, rfl, ?_, ?_⟩
+  · simp [seqFill_length, truncR]
+  · intro i hi
+    rw [seqFill_length] at hi
+    rw [seqFill_get _ _ _ i hi]
+    simp
+
+/-- when `tt` is reached from `from` by a whole number `k` of steps, the sequence has `k+1`
+elements and its last one is `tt` (the end point is included) -/
+theorem seq_hits_to (frm by_ : ℝ) (k : Nat) (up : Bool) (hby : 0 < by_) :
+    let tt := if up then frm + k * by_ else frm - k * by_
+    ∃ l, seq truncR frm tt by_ = .ok l ∧ l.length = k + 1 ∧ l[0]? = some frm ∧ l[k]? = some tt := by
+  intro tt
+  obtain ⟨l, hl, hlen, hget⟩ := seq_spec' frm tt by_ hby
+  have habs : |frm - tt| = k * by_ := by
+    have hk : (0:ℝ) ≤ k * by_ := by positivity
+    cases up with
+    | true => simp only [tt, if_true]; rw [show frm - (frm + k * by_) = -(k * by_) by ring, abs_neg, abs_of_nonneg hk]
+    | false => simp only [tt, Bool.false_eq_true, if_false]; rw [show frm - (frm - k * by_) = k * by_ by ring, abs_of_nonneg hk]
+  have hn : ⌊(|frm - tt| + by_ / 100) / by_⌋₊ = k := by
+    rw [habs, show ((k:ℝ) * by_ + by_ / 100) / by_ = (k:ℝ) + 1 / 100 by field_simp]
+    rw [Nat.floor_eq_iff (by positivity)]
+    constructor <;> norm_num
+  rw [hn] at hlen
+  refine ⟨l, hl, hlen, ?_, ?_⟩
+  · rw [hget 0 (by omega)]; simp
+  · rw [hget k (by omega)]
+    congr 1
+    cases up with
+    | true =>
+      simp only [tt, if_true]
+      rcases Nat.eq_zero_or_pos k with rfl | hk
+      · simp
+      · have : frm < frm + k * by_ := by
+          have : (0:ℝ) < k * by_ := by positivity
+          linarith
+        simp [this]
+    | false =>
+      simp only [tt, Bool.false_eq_true, if_false]
+      have : ¬ frm < frm - k * by_ := by
+        have : (0:ℝ) ≤ k * by_ := by positivity
+        linarith
+      simp only [this, if_false]; ring
+
+/-- witness: before the repair a descending sequence started at `tt` -/
+theorem seqOrig_starts_at_to (trunc : ℝ → Nat) (frm tt by_ : ℝ) (hby : 0 < by_) (h : tt < frm) :
+    ∃ l, seqOrig trunc frm tt by_ = .ok (tt :: l) := by
+  unfold seqOrig seqWith
+  have h1 : Scalar.gtb by_ Scalar.zero = true := by simp [hby]
+  have h2 : Scalar.ltb frm tt = false := by simp [le_of_lt h]
+  simp only [h1, Bool.not_true, Bool.false_eq_true, if_false, h2, seqFill]
+  exact ⟨_, rfl⟩
+
+/-! ### no out-of-range read -/
+
+/-- "does not read out of range" -/
+def NoUb {β : Type} (r : Res β) : Prop := r ≠ .error .ub
+
+theorem noUb_ok {β : Type} (x : β) : NoUb (.ok x : Res β) := by simp [NoUb]
+theorem noUb_err {β : Type} (e : Err) (h : e ≠ .ub) : NoUb (.error e : Res β) := by
+  simp only [NoUb, ne_eq, Except.error.injEq]; exact h
+theorem noUb_bind {β γ : Type} (r : Res β) (f : β → Res γ) (hr : NoUb r) (hf : ∀ x, NoUb (f x)) : NoUb (r >>= f) := by
+  cases r with
+  | ok x => exact hf x
+  | error e =>
+    intro h
+    simp only [bind, Except.bind, Except.error.injEq] at h
+    exact hr (by rw [h])
+theorem noUb_map {β γ : Type} (r : Res β) (f : β → γ) (hr : NoUb r) : NoUb (r >>= fun x => pure (f x)) :=
+  noUb_bind r _ hr (fun _ => noUb_ok _)
+
+theorem zipOp_noUb (f : ℝ → ℝ → ℝ) (a b : List ℝ) : NoUb (zipOp f a b) := by
+  unfold zipOp; split
+  · exact noUb_err _ (by decide)
+  · exact noUb_ok _
+
+theorem scalar_noUb (a b : List ℝ) : NoUb (scalar a b) := by
+  unfold scalar; split
+  · exact noUb_err _ (by decide)
+  · exact noUb_ok _
+
+theorem sumProd_noUb (a b : List ℝ) : NoUb (sumProd a b) := by
+  unfold sumProd; split
+  · exact noUb_err _ (by decide)
+  · exact noUb_ok _
+
+theorem scalarW_noUb (a b w : List ℝ) : NoUb (scalarW a b w) := by
+  unfold scalarW; split
+  · exact noUb_err _ (by decide)
+  · split
+    · exact noUb_err _ (by decide)
+    · exact noUb_ok _
+
+theorem normW_noUb (a w : List ℝ) : NoUb (normW a w) := by
+  unfold normW; split
+  · exact noUb_err _ (by decide)
+  · exact noUb_ok _
+
+theorem cos_noUb (a b : List ℝ) : NoUb (VecTools.cos a b) := noUb_map _ _ (scalar_noUb a b)
+
+theorem extremum_noUb {β : Type} (better : β → β → Bool) (v : List β) : NoUb (extremum better v) := by
+  cases v with
+  | nil => exact noUb_err _ (by decide)
+  | cons x xs => exact noUb_ok _
+
+theorem whichExtremum_noUb {β : Type} (better : β → β → Bool) (v : List β) : NoUb (whichExtremum better v) := by
+  cases v with
+  | nil => exact noUb_err _ (by decide)
+  | cons x xs => exact noUb_ok _
+
+theorem whichMaxAll_noUb (v : List ℝ) : NoUb (whichMaxAll v) ∧ NoUb (whichMinAll v) := by
+  unfold whichMaxAll whichMinAll
+  constructor
+  · split
+    · exact noUb_err _ (by decide)
+    · exact noUb_map _ _ (extremum_noUb _ v)
+  · split
+    · exact noUb_err _ (by decide)
+    · exact noUb_map _ _ (extremum_noUb _ v)
+
+theorem range_noUb (v : List ℝ) : NoUb (VecTools.range v) := by
+  cases v with
+  | nil => exact noUb_err _ (by decide)
+  | cons x xs => exact noUb_ok _
+
+theorem order_noUb (v : List ℝ) : NoUb (order v) := by
+  unfold order; split
+  · exact noUb_err _ (by decide)
+  · exact noUb_ok _
+
+theorem meanW_noUb (v w : List ℝ) (nw : Bool) : NoUb (meanW v w nw) := by
+  unfold meanW; split <;> exact scalar_noUb _ _
+
+theorem centerW_noUb (v w : List ℝ) (nw : Bool) : NoUb (centerW v w nw) := noUb_map _ _ (meanW_noUb v w nw)
+
+theorem cov_noUb (a b : List ℝ) (u : Bool) : NoUb (cov a b u) := noUb_map _ _ (scalar_noUb _ _)
+
+theorem covW_noUb (a b w : List ℝ) (u nw : Bool) : NoUb (covW a b w u nw) := by
+  unfold covW
+  exact noUb_bind _ _ (centerW_noUb _ _ _) (fun c1 => noUb_bind _ _ (centerW_noUb _ _ _)
+    (fun c2 => noUb_map _ _ (scalarW_noUb _ _ _)))
+
+theorem sd_noUb (a : List ℝ) (u : Bool) : NoUb (sd a u) := noUb_map _ _ (cov_noUb a a u)
+theorem sdW_noUb (a w : List ℝ) (u nw : Bool) : NoUb (sdW a w u nw) := noUb_map _ _ (covW_noUb a a w u nw)
+
+theorem cor_noUb (a b : List ℝ) : NoUb (cor a b) := by
+  unfold cor
+  exact noUb_bind _ _ (cov_noUb _ _ _) (fun c => noUb_bind _ _ (sd_noUb _ _) (fun s1 => noUb_map _ _ (sd_noUb _ _)))
+
+theorem corW_noUb (a b w : List ℝ) (nw : Bool) : NoUb (corW a b w nw) := by
+  unfold corW
+  exact noUb_bind _ _ (covW_noUb _ _ _ _ _) (fun c => noUb_bind _ _ (sdW_noUb _ _ _ _) (fun s1 => noUb_map _ _ (sdW_noUb _ _ _ _)))
+
+theorem median_noUb (v : List ℝ) : NoUb (median v) := by
+  cases v with
+  | nil => simp [median, NoUb]
+  | cons x xs =>
+    obtain ⟨m, s, h, -⟩ := median_spec' (x :: xs) (by simp)
+    rw [h]; exact noUb_ok _
+
+theorem which_noUb {β : Type} (eq : β → β → Bool) (v : List β) (x : β) : NoUb (which eq v x) := by
+  unfold which
+  generalize 0 = k
+  induction v generalizing k with
+  | nil => exact noUb_err _ (by decide)
+  | cons y ys ih =>
+    unfold whichFrom; split
+    · exact noUb_ok _
+    · exact ih _
+
+theorem seq_noUb (frm tt by_ : ℝ) (h : 0 < by_) : NoUb (seq truncR frm tt by_) := by
+  obtain ⟨l, hl, -⟩ := seq_spec' frm tt by_ h
+  rw [hl]; exact noUb_ok _
+
+theorem computeFdr_noUb (p : List ℝ) : NoUb (computeFdr p) := by
+  obtain ⟨out, h, -⟩ := computeFdr_spec p
+  rw [h]; exact noUb_ok _
+
+/-! ### size mismatches -/
+
+theorem zipOp_mismatch (f : ℝ → ℝ → ℝ) (v1 v2 : List ℝ) (h : v1.length ≠ v2.length) :
+    zipOp f v1 v2 = .error .dimension := by simp [zipOp, h]
+
+theorem meanW_mismatch (v w : List ℝ) (nw : Bool) (h : v.length ≠ w.length) : meanW v w nw = .error .dimension := by
+  unfold meanW; split
+  · exact scalar_mismatch _ _ (by simpa [divC] using h)
+  · exact scalar_mismatch _ _ h
+
+theorem centerW_mismatch (v w : List ℝ) (nw : Bool) (h : v.length ≠ w.length) : centerW v w nw = .error .dimension := by
+  unfold centerW; rw [meanW_mismatch v w nw h]; rfl
+
+theorem centerW_ok (v w : List ℝ) (nw : Bool) (h : v.length = w.length) : ∃ c, centerW v w nw = .ok c ∧ c.length = v.length := by
+  unfold centerW meanW
+  split
+  · rw [scalar_eq _ _ (by simpa [divC] using h)]; exact ⟨_, rfl, by simp⟩
+  · rw [scalar_eq _ _ h]; exact ⟨_, rfl, by simp⟩
+
 
 end Bpp.VecTools
